@@ -158,6 +158,7 @@ type world struct {
 	uniqTags   bool // tags are unique per proposal: a tag applied twice on a store is a violation
 	baseDelay  time.Duration
 	lastFault  time.Duration
+	frozen     int // store index last hit by freeze_leader (-1: none)
 	opIdx      int
 	harvesting bool
 	tbuf       *[]string
@@ -185,7 +186,7 @@ func newWorld(t *testing.T, c *sim.Case, res *sim.Result) *world {
 	dir := filepath.Join(sim.Scratch(), fmt.Sprintf("cw%d", worldSeq))
 	_ = os.RemoveAll(dir)
 	_ = os.MkdirAll(dir, 0o755)
-	w := &world{t: t, c: c, res: res, dir: dir, start: time.Now(), canon: map[uint64][]string{}, real0: realNow()}
+	w := &world{t: t, c: c, res: res, dir: dir, start: time.Now(), canon: map[uint64][]string{}, real0: realNow(), frozen: -1}
 	w.baseDelay = time.Duration(c.CfgInt("base_delay_ms", 1)) * time.Millisecond
 	w.electionTick = int(c.CfgInt("election_tick", 10))
 	w.heartbeatTick = int(c.CfgInt("heartbeat_tick", 2))
